@@ -825,6 +825,34 @@ def dec_values(rng, p, sc, ks, nrand):
     return out
 
 
+def band_values(p, sc, k):
+    """few-digit mantissas with trailing zeros (positive exponent / scale padding) right below 2^(8k-1), inside the
+    one-bit band [2^(8k-1), 2^(8k)) and right above it, both signs: the precision check sees one or two digits only,
+    so these reach the size check"""
+    out = []
+    for nd in (1, 2, 3):
+        if nd > p:
+            continue
+        for target in (1 << (8 * k - 1), 1 << (8 * k)):
+            m = len(str(target)) - nd
+            if m < 0:
+                continue
+            up = -(-target // 10 ** m)                       # smallest nd-digit mantissa with mant * 10^m >= target
+            if up >= 10 ** nd:
+                up, mu = 10 ** (nd - 1), m + 1
+            else:
+                mu = m
+            dn, md = (target - 1) // 10 ** m, m              # largest with mant * 10^m < target
+            if dn < 10 ** (nd - 1):
+                md = m - 1
+                dn = (target - 1) // 10 ** md if md >= 0 else 0
+            for mant, mm in ((up, mu), (dn, md)):
+                if mm >= 0 and 0 < mant < 10 ** nd:
+                    for sg in (0, 1):
+                        out.append((sg, [int(c) for c in str(mant)], mm - sc))
+    return out
+
+
 def gen_decimal_cases(ctx):
     rng = ctx.rng
     quick = ctx.quick()
@@ -863,6 +891,7 @@ def gen_decimal_cases(ctx):
             if len(vals) > budget:
                 head = [v for v in vals if not any(v[1])]
                 vals = head + rng.sample(vals, budget)
+            vals += band_values(p, sc, size)                  # always: one bit too large through trailing zeros
             for v in vals:
                 cases.append(dict(kind="fixed-decimal", precision=p, scale=sc, size=size, datum=list(v), omit_scale=omit))
     # the recorded witnesses, always
